@@ -411,7 +411,12 @@ func observe(o *stack.Outcome) *observed {
 	if o.Trace == nil {
 		return ob
 	}
-	ob.SideEffects = o.Trace.SideEffects()
+	if o.Panic == nil {
+		// A panic inside one of the stack's fakes leaves the trace's mutex
+		// locked (the stack package does not unlock with defer); the panic
+		// itself is the reported violation then.
+		ob.SideEffects = o.Trace.SideEffects()
+	}
 	ob.Upstream = len(o.Trace.UpstreamRI)
 	seen := map[attr]bool{}
 	put := func(a attr) {
@@ -525,6 +530,10 @@ func invalidOf(dc *decision) string {
 	return strings.Join(cs, "+")
 }
 
+// classSink, if set (child process of the concurrent phase), receives every
+// evaluated class so that the parent can account for it.
+var classSink func(class string, nontrivial bool)
+
 // judge compares the observation with the model and does the accounting.
 func (w *world) judge(r *vkit.Run, rq *reqSpec, dc *decision, ob *observed) {
 	s := w.server(rq.Group, rq.Server)
@@ -541,6 +550,9 @@ func (w *world) judge(r *vkit.Run, rq *reqSpec, dc *decision, ob *observed) {
 	class := strings.Join([]string{rq.Layer, w.DBKind, rq.Group, rq.Server, channelsOf(dc), invalidOf(dc), dc.Cred, kind, state, dc.Expect}, "|")
 	nontrivial := len(dc.Claims) > 0 || len(dc.Invalid) > 0
 	r.Eval(class, nontrivial)
+	if classSink != nil {
+		classSink(class, nontrivial)
+	}
 	wit := func(note string, d *devSpec) witness {
 		return witness{Req: rq, Decision: dc, Observed: ob, Device: d, Note: note}
 	}
